@@ -944,6 +944,66 @@ fn dp(out: &mut Out, rng: &mut Sm, _thorough: bool) {
     let _ = fe::<Field64>;
 }
 
+/// the gadgets are public too: calls with the wrong number of inputs, no inputs, wire polynomials of different
+/// lengths or an output buffer of the wrong length are refused with an error — no panic, no silent success
+fn gadgets(out: &mut Out, rng: &mut Sm) {
+    use prio::flp::gadgets::{ParallelSumGadget, PolyEval};
+    use prio::flp::Gadget;
+    type F = Field128;
+    let class = |r: &Result<Result<(), prio::flp::FlpError>, String>| match r {
+        Ok(Ok(())) => "ok",
+        Ok(Err(_)) => "err",
+        Err(_) => "panic",
+    };
+    let mut gs: Vec<(String, Box<dyn Gadget<F>>)> = vec![
+        ("Mul".into(), Box::new(Mul::new(3))),
+        ("PolyEval".into(), Box::new(PolyEval::new(vec![fe::<F>(0), -fe::<F>(1), fe::<F>(1)], 3))),
+        ("ParallelSum(Mul,2)".into(), Box::new(ParallelSum::<F, Mul>::new(Mul::new(3), 2))),
+        ("ParallelSum(Mul,0)".into(), Box::new(ParallelSum::<F, Mul>::new(Mul::new(3), 0))),
+    ];
+    for (name, g) in gs.iter_mut() {
+        let arity = g.arity();
+        // eval: every input count from 0 to arity + 2
+        for n in 0..=arity + 2 {
+            let inp = rand_vec::<F>(rng, n);
+            let r = catch(AssertUnwindSafe(|| g.eval(&inp).map(|_| ())));
+            let want = if n == arity && arity > 0 { "ok" } else { "err" };
+            out.oracle(class(&r) == want, || format!("{}::eval with {} inputs (arity {})", name, n, arity), || format!("{} (expected {})", class(&r), want));
+            out.count("gadget.eval");
+        }
+        // eval_poly: wire polynomials of length 4, output of length 8 is the well-formed call
+        let wires = |rng: &mut Sm, n: usize, len: usize| -> Vec<Vec<F>> { (0..n).map(|_| rand_vec::<F>(rng, len)).collect() };
+        let good_out = 8usize;
+        let mut cases: Vec<(String, Vec<Vec<F>>, usize, bool)> = vec![];
+        cases.push(("well-formed".into(), wires(rng, arity, 4), good_out, arity > 0));
+        cases.push(("no wires".into(), vec![], good_out, false));
+        cases.push(("one wire too few".into(), wires(rng, arity.saturating_sub(1), 4), good_out, false));
+        cases.push(("one wire too many".into(), wires(rng, arity + 1, 4), good_out, false));
+        for ol in [0usize, 4, 7, 9, 16] {
+            cases.push((format!("output buffer of length {}", ol), wires(rng, arity, 4), ol, false));
+        }
+        if arity >= 2 {
+            for k in [1usize, arity - 1] {
+                for l in [0usize, 2, 8] {
+                    let mut w = wires(rng, arity, 4);
+                    w[k] = rand_vec::<F>(rng, l);
+                    cases.push((format!("wire {} of length {} among wires of length 4", k, l), w, good_out, false));
+                }
+            }
+            let mut w = wires(rng, arity, 4);
+            w[0] = rand_vec::<F>(rng, 2);
+            cases.push(("wire 0 of length 2 among wires of length 4".into(), w, good_out, false));
+        }
+        for (what, w, ol, ok) in cases {
+            let mut outp = vec![fe::<F>(0); ol];
+            let r = catch(AssertUnwindSafe(|| g.eval_poly(&mut outp, &w)));
+            let want = if ok { "ok" } else { "err" };
+            out.oracle(class(&r) == want, || format!("{}::eval_poly {}", name, what), || format!("{} (expected {})", class(&r), want));
+            out.count("gadget.eval_poly");
+        }
+    }
+}
+
 pub fn run(out: &mut Out, thorough: bool, seed: u64) {
     let mut rng = Sm::new(seed ^ 0x1601);
     ctors::<Field64>(out, &mut rng, thorough);
@@ -953,6 +1013,27 @@ pub fn run(out: &mut Out, thorough: bool, seed: u64) {
     prio2(out, &mut rng, thorough);
     poplar1(out, &mut rng, thorough);
     dp(out, &mut rng, thorough);
+    gadgets(out, &mut rng);
+    // Idpf::gen: exactly bits - 1 inner values; an empty input, too few, too many are refused
+    {
+        use prio::idpf::Idpf;
+        use prio::vdaf::poplar1::Poplar1IdpfValue;
+        use prio::field::Field255;
+        for bits in [1usize, 2, 5] {
+            for n in 0..=bits + 1 {
+                let idpf = Idpf::<Poplar1IdpfValue<Field64>, Poplar1IdpfValue<Field255>>::new((), ());
+                let input = IdpfInput::from_bools(&vec![true; bits]);
+                let r = catch(AssertUnwindSafe(|| idpf.gen(&input, (0..n).map(|_| Poplar1IdpfValue::new([Field64::from(1), Field64::from(2)])), Poplar1IdpfValue::new([Field255::from(1), Field255::from(2)]), b"ctx", &[0u8; 16]).map(|_| ())));
+                let c = match &r { Ok(Ok(())) => "ok", Ok(Err(_)) => "err", Err(_) => "panic" };
+                let want = if n + 1 == bits { "ok" } else { "err" };
+                out.oracle(c == want, || format!("Idpf::gen for {} bits with {} inner values", bits, n), || format!("{} (expected {})", c, want));
+                out.count("idpf.gen-arity");
+            }
+        }
+        let idpf = Idpf::<Poplar1IdpfValue<Field64>, Poplar1IdpfValue<Field255>>::new((), ());
+        let r = catch(AssertUnwindSafe(|| idpf.gen(&IdpfInput::from_bools(&[]), Vec::new(), Poplar1IdpfValue::new([Field255::from(1), Field255::from(2)]), b"ctx", &[0u8; 16]).map(|_| ())));
+        out.oracle(matches!(&r, Ok(Err(_))), || "Idpf::gen for an empty input".to_string(), || "not refused with an error".into());
+    }
     if thorough {
         huge_instances(out);
     }
